@@ -63,8 +63,10 @@ func CreateLevel(path string, h hash.Hash, rsum, dsum []byte, level int) (*File,
 	if err != nil {
 		return nil, err
 	}
+	verifPoint("created", f, nil)
 
 	_, ret := f.Write(make([]byte, h.Size()*3))
+	verifPoint("placeholder", f, nil)
 
 	hd := Header{rsum, dsum, nil}
 	rd := flate.NewReader(f)
@@ -100,6 +102,7 @@ func (f *File) Write(p []byte) (int, error) {
 	if f.wr == nil {
 		return 0, io.EOF
 	}
+	verifPoint("body-write", f.f, nil)
 	return f.wr.Write(p)
 }
 
@@ -110,6 +113,7 @@ func (f *File) Close() error {
 
 	if f.wr != nil {
 		ret := f.wr.Close()
+		verifPoint("flate-closed", f.f, nil)
 
 		if _, err := f.f.Seek(int64(f.h.Size())*3, io.SeekStart); ret == nil {
 			ret = err
@@ -121,13 +125,16 @@ func (f *File) Close() error {
 		}
 
 		f.hd.BodySum = f.h.Sum(nil)
+		verifPoint("hashed", f.f, nil)
 		if _, err := f.f.Seek(0, io.SeekStart); ret == nil {
 			ret = err
 		}
+		verifPoint("pre-header", f.f, &f.hd)
 
 		if _, err := f.hd.WriteTo(f.f); ret == nil {
 			ret = err
 		}
+		verifPoint("post-header", f.f, nil)
 
 		return ret
 	}
